@@ -13,6 +13,7 @@ import (
 	"net"
 	"os"
 	"os/exec"
+	"strconv"
 	"strings"
 	"sync"
 	"sync/atomic"
@@ -460,7 +461,7 @@ func c19Run(scn *c19Scn) c19Obs {
 			before := sv.count()
 			waitUntil(2500*time.Millisecond, func() bool { return sv.count() > before })
 			stable(40*time.Millisecond, time.Second)
-		case a == "push" || a == "slowpush" || a == "floodpush":
+		case a == "push" || a == "slowpush" || strings.HasPrefix(a, "floodpush"):
 			pushN++
 			slow := a != "push"
 			sv.push(pushN, slow)
@@ -470,10 +471,15 @@ func c19Run(scn *c19Scn) c19Obs {
 			}
 			ob.Tag = "push"
 			ob.A = waitUntil(400*time.Millisecond, func() bool { handledMu.Lock(); defer handledMu.Unlock(); return handled[want] })
-			if a == "floodpush" {
-				// more than the channel's buffers hold, behind the envelope whose handler takes its time: they stay
-				// unread in the transport
-				for i := 0; i < 9; i++ {
+			if strings.HasPrefix(a, "floodpush") {
+				// behind the envelope whose handler takes its time: "floodpush" = more than the channel's buffers hold
+				// (some stay unread in the transport); "floodpush:<n>" = exactly n (5 = the buffer and the receiver's
+				// hands full, nothing left in the transport)
+				count := 9
+				if i := strings.IndexByte(a, ':'); i >= 0 {
+					count, _ = strconv.Atoi(a[i+1:])
+				}
+				for i := 0; i < count; i++ {
 					sv.pushID(pushN, false, fmt.Sprintf("flood%d-%d", pushN, i))
 				}
 			}
@@ -558,7 +564,7 @@ func (c *c19Case) coq() string {
 			acts[i] = "ADown"
 		case a == "up":
 			acts[i] = "AUp"
-		case a == "push" || a == "slowpush" || a == "floodpush":
+		case a == "push" || a == "slowpush" || strings.HasPrefix(a, "floodpush"):
 			acts[i] = "APush"
 		case a == "watch":
 			acts[i] = "AWatch"
@@ -679,6 +685,13 @@ func runC19(env *Env) error {
 		// inbound envelopes still unread in the transport when the server drops the connection: sends must fail
 		c19Scn{Kind: "inproc", Actions: []string{"floodpush", "down", "fault:eof", "send", "send", "send", "send", "up", "send", "push"}},
 		c19Scn{Kind: "inproc", Actions: []string{"floodpush", "down", "fault:finish", "send", "send", "send", "up", "push"}},
+		// the receiver held up with its hands full and nothing unread in the transport when the server drops the
+		// connection: the client must still notice, build a fresh session, and not spin
+		// (the server is unreachable meanwhile, as in the scenarios above: the listener, busy in its slow handler, does
+		// not reconnect on its own at the moment of the fault)
+		c19Scn{Kind: "inproc", Actions: []string{"floodpush:5", "down", "fault:eof", "send", "send", "watch", "watch", "up", "push", "send"}},
+		c19Scn{Kind: "inproc", Actions: []string{"floodpush:4", "down", "fault:eof", "send", "send", "watch", "watch", "up", "push", "send"}},
+		c19Scn{Kind: "inproc", Actions: []string{"floodpush:6", "down", "fault:finish", "send", "send", "watch", "watch", "up", "push"}},
 		// (not over real sockets: there the first write after the peer closed is accepted by the kernel, and a receiver
 		// held up by full buffers has not read the end of the stream yet - nothing the library could know)
 		c19Scn{Kind: "mem", Actions: []string{"floodpush", "down", "fault:eof", "send", "send", "up", "send"}})
